@@ -299,7 +299,7 @@ Proof.
     destruct (r_mu (getr s r)); [discriminate|].
     destruct (r_stop (getr s r)); inversion H; subst; clear H; simpl; (eapply edge_on_frames; [|exact Inv]); keep_frames.
   - (* FCleanStart *)
-    destruct (r_clock (getr s r)); [discriminate|].
+    destruct (Nat.eqb arg 1); [destruct (r_cancel (getr s r)); [|discriminate] | destruct (r_clock (getr s r)); [discriminate|]];
     inversion H; subst; clear H; simpl; (eapply edge_on_frames; [|exact Inv]); keep_frames.
   - (* FClean *)
     destruct ks as [|k ks'].
